@@ -93,6 +93,13 @@ func XStatements(level int) [][]*Node {
 	add(pr(B_("true"), B_("false"), Nul(), Ar(), Ob(), Ar(N("1"), Ar(N("2"))), Ob(I("k"), Ob(I("j"), N("1")))))
 	add(pr(Do(N("1"), "toFixed"), Do(S("'s'"), "length"), Ix(S("'st'"), N("1")), Do(Ar(N("1"), N("2")), "length"), Ca(Do(N("255"), "toString"), N("16"))))
 
+	// literal content next to operators, and literals whose content looks like layout
+	add(pr(Bi("+", S("'1'"), S("'+2'")), Bi("-", S("'7'"), S("'-2'")), U("-", S("'-5'")), Bi("+", S("\"a\""), T_("`+b`")), Bi("+", S("'a'"), S("'++'"))))
+	add(Let("s", S("'x'")), Let("n2", N("5")), Ex(As("+=", I("s"), S("'+'"))), Ex(As("-=", I("n2"), S("'-1'"))), Ex(As("+=", I("s"), T_("`-`"))), pr(I("s"), I("n2")))
+	add(Let("u", T_("`a\\`b`")), Let("v", T_("`p  \n  q  \n`")), pr(I("u"), I("v")))
+	add(Let("u", T_("`http://x`")), Let("v", T_("`p  \n`")), pr(I("u"), I("v")), Let("w", S("\"// x\"")), pr(I("w")))
+	add(Func("g", nil, Let("u", S("'\"'")), Ret(T_("`  \n\n z `"))), pr(Ca(I("g"))))
+
 	if level < 1 {
 		return out
 	}
